@@ -154,6 +154,12 @@ def one_case(ctx, vals, kind, strikes, notional, df, controls, spot_stats, tag, 
     if sims != list(range(n)) or rows.shape[0] != n:
         ctx.fail("oracle", "c07.each_path_once", desc, {"what": "paths simulated / rows stored", "sims": sims[:10], "rows": rows.shape[0]}, cls=cls)
         return
+    if raw_price.shape[0] != d or (n > 1 and raw_err.shape[0] != d):
+        # one price and one error per payoff component: a result of another shape cannot be the textbook estimator
+        ctx.fail("oracle", "c07.stderr" if raw_price.shape[0] == d else "c07.price", desc,
+                 {"what": "the engine reports a price / error vector whose length is not the number of payoff components",
+                  "components": d, "n": n, "len(price)": int(raw_price.shape[0]), "len(mc_stddev)": int(raw_err.shape[0])}, cls=cls)
+        return
     for j in range(d):
         if [float(x) for x in rows[:, j]] != ys[j]:
             ctx.fail("oracle", "c07.each_path_once", desc, {"what": "row i is not df*notional*payoff(path i)", "component": j,
